@@ -663,7 +663,7 @@ def skel_dochandler_getSuffix : List String :=
 
 /-- pkg/vdr/sidetreelongform/dochandler/dochandler.go:ProcessOperation -/
 def skel_dochandler_ProcessOperation : List String :=
-  ["pv, err := r.protocolClient.Current()", "if err != nil {", "  return nil, err", "}", "op, err := pv.OperationParser().Parse(r.namespace, operationBuffer)", "if err != nil {", "  return nil, error(...)", "}", "if op.Type != operation.TypeCreate {", "  return nil, error(...)", "}", "var createRequest model.CreateRequest", "err = json.Unmarshal(operationBuffer, &createRequest)", "if err != nil {", "  return nil, error(...)", "}", "jcsBytes, err := canonicalizer.MarshalCanonical(createRequest)", "if err != nil {", "  return nil, error(...)", "}", "requestJCS := encoder.EncodeToString(jcsBytes)", "ti := docutil.GetTransformationInfoForUnpublished(r.namespace, \"\", \"\", op.UniqueSuffix, requestJCS)", "return r.getCreateResponse(op, ti, pv)"]
+  ["pv, err := r.protocolClient.Current()", "if err != nil {", "  return nil, err", "}", "op, err := pv.OperationParser().Parse(r.namespace, operationBuffer)", "if err != nil {", "  return nil, error(...)", "}", "if op.Type != operation.TypeCreate {", "  return nil, error(...)", "}", "var createRequest model.CreateRequest", "err = json.Unmarshal(operationBuffer, &createRequest)", "if err != nil {", "  return nil, error(...)", "}", "jcsBytes, err := canonicalizer.MarshalCanonical(createRequest)", "if err != nil {", "  return nil, error(...)", "}", "op, err = pv.OperationParser().Parse(r.namespace, jcsBytes)", "if err != nil {", "  return nil, error(...)", "}", "requestJCS := encoder.EncodeToString(jcsBytes)", "ti := docutil.GetTransformationInfoForUnpublished(r.namespace, \"\", \"\", op.UniqueSuffix, requestJCS)", "return r.getCreateResponse(op, ti, pv)"]
 
 /-- pkg/vdr/sidetreelongform/dochandler/dochandler.go:getCreateResponse -/
 def skel_dochandler_getCreateResponse : List String :=
